@@ -239,6 +239,34 @@ func runC19(c *core.Ctx) {
 			m, sh := gen.KACOf(r, 7, fp.crypto)
 			in := m.Encode()
 			class := "wellformed"
+			if i%8 == 4 {
+				// a whole key field at an extreme value: zero, one, all ones, all ones but the last bit,
+				// only the top bit (values a range-checking key constructor refuses)
+				in = append([]byte{}, in...)
+				fields := [][2]int{{0, 256}, {352, 384}}
+				if fp.crypto == 4 {
+					fields[0] = [2]int{0, 32}
+				}
+				f := fields[r.Pick(2)]
+				pat := r.Pick(5)
+				for k := f[0]; k < f[1]; k++ {
+					in[k] = []byte{0, 0, 0xff, 0xff, 0}[pat]
+				}
+				switch pat {
+				case 1:
+					in[f[1]-1] = 1
+				case 3:
+					in[f[1]-1] = 0xfe
+				case 4:
+					in[f[0]] = 0x80
+				}
+				a, p1 := fromParser(c, *generic, in)
+				b, p2 := fromParser(c, *special, in)
+				if !p1 && !p2 {
+					compareEntries(c, "fastpath/"+fp.name, in, gen.Shape{"input": "key-field-extreme", "cert": sh["cert"], "field": f[0], "pattern": pat}, []entryOut{a, b})
+				}
+				return
+			}
 			switch i % 4 {
 			case 1: // mutate anything but the certificate's type declaration (bytes 384..390)
 				p := r.Pick(len(in))
@@ -495,7 +523,35 @@ func runC19(c *core.Ctx) {
 			})
 			return o
 		}
-		switch i % 5 {
+		switch i % 6 {
+		case 5:
+			// Build called again (and again) on the same configured builder: every certificate it
+			// returns is the one the direct constructor gives for the configured type and payload
+			t := []int{1, 3, 5, 4, 0}[r.Pick(5)]
+			p1 := r.Bytes(1 + r.Pick(40))
+			if t == 4 {
+				p1 = r.Bytes([]int{40, 72}[r.Pick(2)])
+			}
+			if t == 0 {
+				p1 = nil
+			}
+			times := 2 + r.Pick(2)
+			b := built(fmt.Sprintf("CertificateBuilder: WithType, WithPayload, Build x%d", times), func(bd *certificate.CertificateBuilder) error {
+				if _, err := bd.WithType(uint8(t)); err != nil {
+					return err
+				}
+				if p1 != nil {
+					bd.WithPayload(p1)
+				}
+				for k := 1; k < times; k++ {
+					if _, err := bd.Build(); err != nil {
+						return err
+					}
+				}
+				return nil
+			})
+			sh["type"], sh["payload_len"], sh["builds"] = t, len(p1), times
+			compareEntries(c, "builder-sequence/built-repeatedly", p1, sh, []entryOut{directT(t, p1), b})
 		case 3:
 			// a payload set, then replaced — by another payload, by an empty one, by nil — on the same
 			// builder, with or without a Build in between: the LAST payload is the certificate's
